@@ -438,30 +438,44 @@ def Sys.sweep (s : Sys) (f : Conn → Option Conn) : Sys :=
     | none => s.putConn p.1 (none, [])
     | some c => s.putConn p.1 (some c, [])) s
 
-/-- the listen sockets are closed: clients still in the queue are reset -/
+/-- the connections still in the listen queue are reset when the listen sockets are closed -/
+def Sys.resetBacklog (s : Sys) : Sys :=
+  s.backlog.foldl (fun s i => s.modClient i fun cl => { cl with srvFin := true, reset := 1 }) s
+
+/-- server_sockets_close() -/
 def Sys.closeListen (s : Sys) : Sys :=
-  let s := s.backlog.foldl (fun s i => s.modClient i fun cl => { cl with srvFin := true, reset := 1 }) s
-  { s with backlog := [], disabled := 3 }
+  { s.resetBacklog with backlog := [], disabled := 3 }
+
+/-- the first server_graceful_state(): graceful_expire_ts is fixed, the listen sockets are closed -/
+def Sys.gracefulStart (cfg : Cfg) (s : Sys) : Sys :=
+  if s.disabled = 3 then s
+  else { s.closeListen with expireTs := if cfg.gt = 0 then 0 else s.now + cfg.gt }
+
+/-- `srv->graceful_expire_ts && srv->graceful_expire_ts < log_monotonic_secs` -/
+def Sys.expired (s : Sys) : Bool := decide (s.expireTs ≠ 0 ∧ s.expireTs < s.now)
+
+/-- `NULL == srv->conns && graceful_shutdown`: the main loop ends -/
+def Sys.exitIfIdle (s : Sys) : Sys :=
+  if s.conns.isEmpty then { s with exited := true } else s
 
 /-- server_graceful_state(), iterated to rest -/
 def Sys.gracefulPass (cfg : Cfg) (s : Sys) : Sys :=
-  let s := if s.disabled = 3 then s
-           else { s.closeListen with expireTs := if cfg.gt = 0 then 0 else s.now + cfg.gt }
-  let expired := decide (s.expireTs ≠ 0 ∧ s.expireTs < s.now)
-  let s := s.sweep (gracefulConn expired)
-  if s.conns.isEmpty then { s with exited := true } else s
+  let s := s.gracefulStart cfg
+  (s.sweep (gracefulConn s.expired)).exitIfIdle
 
 def Sys.markAccepted (s : Sys) : Sys :=
   s.conns.foldl (fun s p => s.modClient p.1 fun cl => { cl with accepted := true }) s
 
+/-- after server_main_loop() has returned nothing is served any more -/
+def Sys.halt (s : Sys) : Sys :=
+  if s.exited then { s with conns := [], backlog := [] } else s
+
+def Sys.loopToRest (cfg : Cfg) (s : Sys) : Sys :=
+  if s.graceful then s.gracefulPass cfg else admitLoop cfg (2 * s.backlog.length + 3) s
+
 /-- run the main loop until nothing more happens -/
 def Sys.settle (cfg : Cfg) (s : Sys) : Sys :=
-  if s.exited then { s with conns := [], backlog := [] }
-  else
-    let s := if s.graceful then s.gracefulPass cfg
-             else admitLoop cfg (2 * s.backlog.length + 3) s
-    let s := if s.exited then { s with conns := [], backlog := [] } else s
-    s.markAccepted
+  if s.exited then s.halt else ((s.loopToRest cfg).halt).markAccepted
 
 inductive Op where
   | tick (n : Nat)
